@@ -30,6 +30,17 @@ def gen_sandwich(tier, seed, miri=False):
 
 def judge(prop, shards, out, fn, engine, binname, agg):
     for sh in shards:
+        if binname == "allocdrv" and sh.returncode is not None and sh.returncode < 0 and not sh.timed_out:
+            # the mock inner allocator hands out pointers that must never be dereferenced and may return null: a crash of the
+            # driver means the profiler touched the memory itself or turned a null result into an abort
+            if prop == "C09":
+                n_done = len([r for r in sh.runs if r.complete])
+                culprit = sh.lines[n_done] if n_done < len(sh.lines) else sh.lines[-1]
+                out.violation("C09:profiler_crashed:signal_%d" % -sh.returncode, "driving AllocProfiler<Mock> crashed with signal %d: the wrapper touched the block or aborted on a null result" % -sh.returncode,
+                              {"engine": engine, "bin": binname, "cfg": culprit, "stderr": sh.stderr[-1500:]})
+            else:
+                out.inconclusive_shard("allocdrv crashed with signal %d (C09's verdict)" % -sh.returncode)
+            continue
         if not sh.conclusive:
             out.inconclusive_shard("engine=%s bin=%s shard: done=%s rc=%s timeout=%s stderr=%s" % (engine, binname, sh.done, sh.returncode, sh.timed_out, sh.stderr[-300:].replace("\n", " | ")))
         for run in sh.runs:
